@@ -1359,7 +1359,7 @@ def _file_unit(draw, prefix, with_prelude, includes):
 STRUCTURES = ['single', 'chain', 'subdir', 'missing', 'self', 'mutual',
               'directory', 'searchdep', 'nonutf8', 'bom', 'crlf',
               'top-missing', 'string-include', 'searchgraph', 'searchgraph',
-              'searchgraph']
+              'searchgraph', 'searchdep', 'searchdep']
 
 
 def _search_graph(draw):
@@ -1475,8 +1475,26 @@ def files_strategy(draw):
                 'class F_Else { [Key] string Id; };\n', '', '// nothing\n'])
         files['dep/F_Target.mof'] = '[Description("t")] class F_Target ' \
             '{ [Key] uint32 Id; };\n'
+        wrong = ['class F_Else { [Key] string Id; };\n', '', '// nothing\n',
+                 'instance of F_Else { Id = "9"; };\n']
+        if _chance(draw, 20):
+            # the file found for the referenced class defines something else
+            files['dep/F_Target.mof'] = _pick(draw, wrong)
         files[top] = 'class F_Sub : F_Super { [Description("x")] uint8 p; ' \
             'F_Target REF r; };\ninstance of F_Sub { Id = "1"; p = 5; };\n'
+        if _chance(draw, 60):
+            # an instance whose class is only on the search path; the file
+            # found for it defines the class, a class with a dependency of
+            # its own, or something else
+            files['dep/F_Inst.mof'] = _pick(draw, [
+                'class F_Inst { [Key] string Id; };\n',
+                'class F_Inst { [Key] string Id; };\n',
+                'class F_Inst : F_Super { uint8 q; };\n',
+                'class F_Inst { [Key] string Id; F_Target REF t; };\n'] +
+                wrong)
+            unit = 'instance of F_Inst { Id = "2"; };\n'
+            files[top] = unit + files[top] if _chance(draw, 60) else \
+                files[top] + unit
     elif s == 'string-include':
         entry = 'string'
         search = _chance(draw, 50)
@@ -1649,6 +1667,10 @@ REPO_UNITS = {
              'instance of R_A as $a { Id = "1"; p = 1; };\n'
              'instance of R_B { Id = "2"; r = $a; };\n',
     'undeclared-qualifier': 'class R_A { [Key] string Id; };\n',
+    # an instance without its key value: the ALREADY_EXISTS recovery path
+    # of instance creation cannot build the instance path
+    'keyless-instance': PRELUDE + 'class R_A { [Key] string Id; uint8 p; };\n'
+                        'instance of R_A { p = 1; };\n',
     'pragma': '#pragma namespace("root/other")\n' + PRELUDE +
               'class R_A { [Key] string Id; };\n'
               'instance of R_A { Id = "1"; };\n',
